@@ -110,26 +110,45 @@ def r07_3(ctx: Ctx) -> None:
 
 def r07_4(ctx: Ctx) -> None:
     func = ctx.fn(HD, "get_ruleset")
-    vals = bound_from(func, "rules")
-    ok = bool(vals)
-    forms = []
-    for val in vals:
-        forms.append(txt(val)[:80])
-        if isinstance(val, ast.Call) and call_name(val) == "filter":
-            ok = ok and len(val.args) == 2 and txt(val.args[1]) == "rules" and isinstance(val.args[0], ast.Lambda)
-        elif isinstance(val, ast.Attribute) and txt(val) == "ruleset.rules":
-            pass
-        elif isinstance(val, (ast.ListComp, ast.GeneratorExp)) and txt(val.generators[0].iter) == "rules":
-            pass
-        else:
-            ok = False
+    repl = [c for c in calls(func) if last_attr(c) == "copy_with_replacements"]
+    forms: list = []
+
+    def order_preserving(expr: ast.AST, seen: tuple = ()) -> bool:
+        """ expr holds the ruleset's rules, restricted by order-preserving filters only """
+        if isinstance(expr, ast.Attribute) and expr.attr == "rules":
+            return True
+        if isinstance(expr, ast.Name):
+            if expr.id in seen:
+                return True
+            values = bound_from(func, expr.id)
+            forms.extend(txt(v)[:60] for v in values)
+            return bool(values) and all(order_preserving(v, seen + (expr.id,)) for v in values)
+        if isinstance(expr, ast.Call) and call_name(expr) == "filter" and len(expr.args) == 2:
+            return order_preserving(expr.args[1], seen)
+        if isinstance(expr, ast.Call) and call_name(expr) in ("list", "tuple") and len(expr.args) == 1 and not expr.keywords:
+            return order_preserving(expr.args[0], seen)
+        if isinstance(expr, (ast.ListComp, ast.GeneratorExp)) and len(expr.generators) == 1:
+            return order_preserving(expr.generators[0].iter, seen)
+        return False
+    handed = kwarg(repl[0], "rules") if len(repl) == 1 else None
+    ok = handed is not None and order_preserving(handed)
     ctx.ob("R07.4", HD, func, "get_ruleset", "rule restriction", ok,
            "the rule subset is obtained from the full, file-ordered rule tuple by order-preserving filters only "
-           "(no sorting, no set)", form="; ".join(forms))
-    repl = [c for c in calls(func) if last_attr(c) == "copy_with_replacements"]
-    ok = len(repl) == 1 and kwarg(repl[0], "rules") is not None and txt(kwarg(repl[0], "rules")) in ("list(rules)", "tuple(rules)")
+           "(no sorting, no set)", form="; ".join(forms)[:200])
+
+    def materialised(expr: ast.AST, seen: tuple = ()) -> bool:
+        if isinstance(expr, ast.Call) and call_name(expr) in ("list", "tuple"):
+            return True
+        if isinstance(expr, ast.ListComp):
+            return True
+        if isinstance(expr, ast.Name) and expr.id not in seen:
+            values = bound_from(func, expr.id)
+            return bool(values) and all(materialised(v, seen + (expr.id,)) for v in values)
+        return False
+    ok = handed is not None and materialised(handed)
     ctx.ob("R07.4", HD, repl[0] if repl else func, "get_ruleset", "rules handed on in order", ok,
-           "the filtered rules are materialised in order", form=txt(repl[0])[:100] if repl else "")
+           "the filtered rules are materialised in order (a list or tuple, not a one-shot iterator)",
+           form=txt(repl[0])[:100] if repl else "")
     files = ctx.fn(HD, "_get_rule_files_for_strictness")
     fcfg = CFG(files)
     param = files.args.args[0].arg if files.args.args else "strictness"
